@@ -1254,8 +1254,10 @@ def dead_dict_keys(f: FuncInfo):
                         skip = True
             if isinstance(n, ast.Assign) and any(isinstance(x, ast.Name) and x.id == name for x in ast.walk(n.value)) and \
                     not (isinstance(n.value, ast.Subscript) and isinstance(n.value.slice, ast.Constant)):
-                # aliased (info = m[x]) or stored elsewhere: reads through the alias are covered by const_reads, but dynamic ones are not
-                skip = skip or any(isinstance(t, ast.Attribute) for t in n.targets)
+                # the dict as a whole is handed to another name, attribute or container: it may be read there
+                whole = any(isinstance(x, ast.Name) and x.id == name and not isinstance(getattr(x, "_parent", None), (ast.Subscript, ast.Attribute))
+                            for x in ast.walk(n.value))
+                skip = skip or whole or any(isinstance(t, ast.Attribute) for t in n.targets)
             if isinstance(n, ast.Subscript) and isinstance(n.ctx, ast.Load):
                 r, idx = chain(n)
                 if r == name and len(idx) >= depth and not isinstance(idx[depth - 1], ast.Constant):
@@ -1302,3 +1304,32 @@ def rule_abs_before_modulo(ctx, scope, label):
                     ctx.fail(rule, f"{f.qname}: `{norm(b)[:40]}`", f.qname, f"abs-of-difference-before-modulo:{f.name}", f.module.relpath, b.lineno,
                              f"`{norm(b)}` wraps the wrong way whenever the difference is negative: {norm(b.left.args[0])} = -2 gives 2 instead of n-2")
     ctx.ok(rule, f"{label}: no abs(difference) % n")
+
+
+def private_callees(prog, f: FuncInfo, depth=2):
+    """functions of the same module (or methods of the same class) that f calls by a private name (`_x(..)`, `self._x(..)`,
+    `cls._x(..)`, `Class._x(..)`), transitively up to `depth`: the places an "extract helper" refactoring moves code to"""
+    out, seen, todo = [], {f.qname}, [(f, 0)]
+    while todo:
+        g, d = todo.pop()
+        if d >= depth:
+            continue
+        for c in ast.walk(g.node):
+            if not isinstance(c, ast.Call):
+                continue
+            name = None
+            if isinstance(c.func, ast.Name) and c.func.id.startswith("_"):
+                name = c.func.id
+                cands = [h for h in prog.functions_in(g.module.name) if h.cls is None and h.name == name]
+            elif isinstance(c.func, ast.Attribute) and c.func.attr.startswith("_") and not c.func.attr.startswith("__") and isinstance(c.func.value, ast.Name):
+                name = c.func.attr
+                cands = [h for h in prog.functions_in(g.module.name) if h.cls is not None and g.cls is not None and h.name == name
+                         and (h.cls is g.cls or h.cls in g.cls.mro or g.cls in h.cls.mro)]
+            else:
+                continue
+            for h in cands:
+                if h.qname not in seen:
+                    seen.add(h.qname)
+                    out.append(h)
+                    todo.append((h, d + 1))
+    return out
